@@ -7,7 +7,7 @@ Local Open Scope N_scope.
 
 (** a mechanism of the strict grammar starts with one of the keywords *)
 Definition KWS : list bytes := [KW_ALL; KW_INCLUDE; KW_EXISTS; KW_IP4; KW_IP6; KW_PTR; KW_MX; KW_A].
-Lemma parse_mech_kw strict tok m : parse_mech strict tok = Some m -> exists K, In K KWS /\ is_prefix K (lowerb tok) = true.
+Lemma parse_mech_kw tok m : parse_mech tok = Some m -> exists K, In K KWS /\ is_prefix K (lowerb tok) = true.
 Proof.
   unfold parse_mech. change (lower tok) with (lowerb tok).
   destruct (str_eq (lowerb tok) KW_ALL) eqn:E0.
@@ -29,19 +29,19 @@ Proof.
     eexists _, _; (split; [reflexivity|]); (split; [cbn; auto 6|]); cbn [length skipn]; rewrite <- E; exact E.
 Qed.
 
-Lemma parse_mech_alpha strict tok m : parse_mech strict tok = Some m -> is_alpha (hd0 tok) = true /\ tok <> [].
+Lemma parse_mech_alpha tok m : parse_mech tok = Some m -> is_alpha (hd0 tok) = true /\ tok <> [].
 Proof.
-  intros H. destruct (parse_mech_kw _ _ _ H) as (K & HK & HP).
+  intros H. destruct (parse_mech_kw _ _ H) as (K & HK & HP).
   destruct (kws_split tok K HK HP) as (x & r & E & Hx & _).
   destruct tok as [|c t]; [discriminate|]. split; [|discriminate]. cbn in E. injection E as E _.
   cbn. eapply to_lower_alpha; [exact E|]. cbn in Hx. destruct Hx as [<-|[<-|[<-|[<-|[<-|[]]]]]]; reflexivity.
 Qed.
 
 (** a mechanism text does not start like "redirect=" or "exp=" *)
-Lemma parse_mech_not_mod strict tok m : parse_mech strict tok = Some m ->
+Lemma parse_mech_not_mod tok m : parse_mech tok = Some m ->
   case_prefix MOD_REDIRECT tok = false /\ case_prefix MOD_EXP tok = false.
 Proof.
-  intros H. destruct (parse_mech_kw _ _ _ H) as (K & HK & HP).
+  intros H. destruct (parse_mech_kw _ _ H) as (K & HK & HP).
   pose proof (is_prefix_split _ _ HP) as E. rewrite !case_prefix_lower, E.
   cbn in HK. destruct HK as [<-|[<-|[<-|[<-|[<-|[<-|[<-|[<-|[]]]]]]]]]; split; reflexivity.
 Qed.
@@ -60,7 +60,7 @@ Proof. destruct q; reflexivity. Qed.
 
 (** one term *)
 Lemma term_sim domain tok rest t mechl g :
-  parse_term true tok = Some t -> sp_tail rest = true -> (g_q g <= 10)%nat ->
+  parse_term tok = Some t -> sp_tail rest = true -> (g_q g <= 10)%nat ->
   forall prefix tr, term_eval D X mk recM domain (tok ++ rest) mechl g = Ok (prefix, tr) ->
   match t with
   | TDir q m => prefix = qual_code q /\
@@ -71,7 +71,7 @@ Proof.
   intros H Hr Hq prefix tr. unfold parse_term in H. unfold term_eval, qualifier.
   destruct (parse_qual (hd0 tok)) as [q|] eqn:Eq.
   - (* qualifier, then a mechanism *)
-    destruct (parse_mech true (tl tok)) as [m|] eqn:Em; [|discriminate]. injection H as <-.
+    destruct (parse_mech (tl tok)) as [m|] eqn:Em; [|discriminate]. injection H as <-.
     destruct tok as [|c t']; [discriminate|]. cbn [hd0 tl app] in *.
     unfold parse_qual in Eq.
     assert (Hc : (c = 43 /\ q = QPlus) \/ (c = 45 /\ q = QMinus) \/ (c = 126 /\ q = QTilde) \/ (c = 63 /\ q = QQuest)).
@@ -93,8 +93,8 @@ Proof.
     destruct (hd0 tok =? 43) eqn:E1; [discriminate|]. destruct (hd0 tok =? 45) eqn:E2; [discriminate|].
     destruct (hd0 tok =? 126) eqn:E3; [discriminate|]. destruct (hd0 tok =? 63) eqn:E4; [discriminate|].
     assert (Hhd : tok <> [] -> hd0 (tok ++ rest) = hd0 tok) by (destruct tok; [congruence|reflexivity]).
-    destruct (parse_mech true tok) as [m|] eqn:Em.
-    + injection H as <-. destruct (parse_mech_alpha _ _ _ Em) as [Ha Hne].
+    destruct (parse_mech tok) as [m|] eqn:Em.
+    + injection H as <-. destruct (parse_mech_alpha _ _ Em) as [Ha Hne].
       rewrite (Hhd Hne), E2, E3, E1, E4, Ha.
       destruct (mech_eval D X mk recM domain (tok ++ rest) (tok ++ rest) mechl g) as [t0|w|] eqn:Me; cbn [bind]; try discriminate.
       intros Hd. injection Hd as <- <-. split; [reflexivity|].
@@ -130,7 +130,7 @@ Lemma rec_char_cases c : rec_char c = true -> c = 32 \/ ((c =? 32) = false /\ ws
 Proof. unfold rec_char, wspace, not_sp. intros H. destruct (c =? 32) eqn:E; [left; lia|right; repeat split; lia]. Qed.
 
 Lemma loop_sim domain : forall s intok ts prefix mechl g,
-  forallb rec_char s = true -> parse_terms true (tokens s intok) = Some ts -> (g_q g <= 10)%nat ->
+  forallb rec_char s = true -> parse_terms (tokens s intok) = Some ts -> (g_q g <= 10)%nat ->
   forall l, term_loop D X mk recM domain s intok prefix mechl g = Ok l ->
   lrel (eval_terms D X true recS domain ts (g_q g)) l.
 Proof.
@@ -149,8 +149,8 @@ Proof.
       { pose proof (drop_while_stops not_sp (c :: t)) as Q. fold rest in Q. destruct rest as [|e r]; [reflexivity|].
         cbn in Q |- *. unfold not_sp in Q. lia. }
       cbn [parse_terms] in Hp.
-      destruct (parse_term true tok) as [x|] eqn:Ex; [|discriminate].
-      destruct (parse_terms true (tokens t true)) as [xs|] eqn:Exs; [|discriminate]. injection Hp as <-.
+      destruct (parse_term tok) as [x|] eqn:Ex; [|discriminate].
+      destruct (parse_terms (tokens t true)) as [xs|] eqn:Exs; [|discriminate]. injection Hp as <-.
       destruct (term_eval D X mk recM domain (c :: t) mechl g) as [[prefix' tr]|w|] eqn:Et; cbn [bind] in Hl; try discriminate.
       rewrite Es in Et. pose proof (term_sim domain tok rest x mechl g Ex Hr Hq prefix' tr Et) as T.
       destruct x as [q m|d|d|].
